@@ -312,16 +312,19 @@ claim("C06",
 
 # clauses added after the independent seeded changes (DESIGN §8); appended to the level text
 EXTRA = {
- "C01": " Also: block gas is accounted identically by miner and validator (closed callers of the gas pool, filled once from header.GasLimit), and the change-journal clauses of C07 are evaluated here as well (independence from discarded candidates needs an exact revert).",
- "C02": " Also: after a restart the replay guard is refilled over the window measured from the stable block's time (not the wall clock).",
- "C03": " Also: every advance of the stable root prunes from the root that was stable immediately before that step.",
- "C07": " Also: undo/redo write only through the accessor setters of their journalling sibling, and copy-in setters re-initialise their destination before copying.",
+ "C06": " Round 2: SetSingers installs a freshly built list; signing hashes read fields directly or through faithful accessors.",
+ "C05": " Round 2: the journal clauses of C07 and the sandbox clauses of C16 are evaluated under C05 as well.",
+ "C04": " Round 2: the identity memo (Transaction.hash) is filled only by Hash from rlpHash of the receiver, reset on whole-struct copies, and its address goes nowhere else; every TxTracer.DelTrace argument derives from a TimeBuckets.Expire result, interprocedurally through helper parameters.",
+ "C01": " Also: block gas is accounted identically by miner and validator (closed callers of the gas pool, filled once from header.GasLimit), and the change-journal clauses of C07 are evaluated here as well (independence from discarded candidates needs an exact revert). Round 2: nothing is carried from one block's execution to the next (package-level writes in the closure are table-listed; executor fields are constructor-only or unconditionally re-initialised before the first transaction; Reset(ParentHash) dominates every applyTx and return), and the map-order exemption of ChangeVotesByBalance has needMerge(VotesLog)=true as a partially evaluated premise.",
+ "C02": " Also: after a restart the replay guard is refilled over the window measured from the stable block's time (not the wall clock). Round 2: Seal fills a copy of the header; the C04 clauses are evaluated under C02 as well.",
+ "C03": " Also: every advance of the stable root prunes from the root that was stable immediately before that step. Round 2: snapshot votes, confirm counting and the two-thirds threshold draw on one deputy set.",
+ "C07": " Also: undo/redo write only through the accessor setters of their journalling sibling, and copy-in setters re-initialise their destination before copying. Round 2: a constructed change log is pushed on every path to the raw write; the snapshot precedes the first journalled write of its step.",
  "C09": " Also: a node made to carry an existing node's account keeps that node's dye.",
  "C10": " Also: the list ranked at start-up is built only from candidates whose stored isCandidate flag is true.",
  "C11": " Also: the balance a vote transaction weighs is read before the transaction's gas purchase.",
  "C13": " Also: miner and verifier read the deputy set of parent height + 1 for round length and rotation and consult the parent's miner only outside the height-1 / first-block-of-term case (input agreement, not arithmetic).",
  "C14": " Also: no fast path to success around the fetch the canonical test inspects; custom decoders fill no field from a sibling field.",
- "C15": " Also (C15.8): every sub transaction of a decoded box is non-nil when GetBox succeeds and every reader gets its box from GetBox; results of network functions with a `return nil` path are nil-tested by every caller before use.",
+ "C15": " Also (C15.8): every sub transaction of a decoded box is non-nil when GetBox succeeds and every reader gets its box from GetBox; results of network functions with a `return nil` path are nil-tested by every caller before use. Round 2: the crash-site inventory has a per-(package, kind) budget for sites that move inside their package.",
  "C16": " Also (C16.7): SetCallCode's hash identifies the installed code (key of the jump-destination cache).",
  "C18": " Also: DelTxs on a fork switch receives the unfiltered new-fork list.",
 }
